@@ -111,6 +111,8 @@ def load_spec(draw, mag_lo=10.0, mag_hi=5.0e6, families=None):
 
 def expand(spec) -> list:
     fam = spec["family"]
+    if fam == "explicit":  # a fully specified profile (used when a derived scenario must keep another scenario's loads)
+        return [float(x) for x in spec["values"]]
     mag = spec["mag"]
     out = [0.0] * 8760
     if fam == "constant":
